@@ -51,13 +51,13 @@ func (o *OpenSpec) tableXML() string {
 		g := 0
 		for _, c := range row {
 			b.WriteString(`<w:tc>`)
-			if !c.NoPr || c.Span > 1 || c.VM != "" {
+			if !c.NoPr || c.Span >= 1 || c.VM != "" {
 				w := 0
 				for k := g; k < g+c.span() && k < len(o.Grid); k++ {
 					w += o.Grid[k]
 				}
 				fmt.Fprintf(&b, `<w:tcPr><w:tcW w:w="%d" w:type="dxa"/>`, w)
-				if c.Span > 1 {
+				if c.Span >= 1 { // 1 = the explicit <w:gridSpan w:val="1"/> some producers write on every cell
 					fmt.Fprintf(&b, `<w:gridSpan w:val="%d"/>`, c.Span)
 				}
 				switch c.VM {
